@@ -4,6 +4,8 @@ Line protocol shared by the C08 and C09 drivers.
   analyze <page|fig1|fig0> <line_overlap> <char_margin> <line_margin> <word_margin> <boxes_flow|N>
           <detect_vertical 0|1> <x0> <y0> <x1> <y1> <n> { c <id> <x0> <y0> <x1> <y1> <text> | o <id> }*
       -> <full dump> ||| <weak dump> ||| <flags>
+  analyze colsep <same arguments>    -> 1/0: every group of the model's hierarchy joins vertically separated runs
+                                        (`Node.separatedB`), "-" without hierarchy
   isspace <cp>*                      -> one 0/1 per code point
   pred <name> <rationals…>           -> value of a regenerated predicate / of its documented spec (C09)
   defaults                           -> LAParams defaults and the Plane grid size
@@ -95,7 +97,11 @@ def doAnalyze : List String → String
       | some items =>
         let p : LAParams := ⟨lo, cm, lm, wm, bf, dv == "1"⟩
         let bb : BB := ⟨x0, y0, x1, y1⟩
-        if mode == "page" then showResult (analyze HEntry.le p bb items)
+        if mode == "colsep" then
+          (match (analyze HEntry.le p bb items).groups with
+           | none => "-"
+           | some gs => if gs.all Node.separatedB then "1" else "0")
+        else if mode == "page" then showResult (analyze HEntry.le p bb items)
         else if mode == "fig1" then showResult (analyzeFigure HEntry.le true p bb items)
         else if mode == "fig0" then showResult (analyzeFigure HEntry.le false p bb items)
         else "bad-op"
